@@ -1,6 +1,6 @@
 """C12 — configuration of the check (deductive tier under construction)."""
 PROPERTY = "C12"
-LEVEL = "other"
+LEVEL = "exploration"
 CONTRACT_MODULES = ["contracts.specfuns"]
 FUNCTIONS = []
 LEMMAS = []
